@@ -10,7 +10,8 @@
       output ((label status hasCtx ctxDone spawned) per event ... , per-thread result, verdict)
     The real code parks only at its instrumented scheduling points, so one trace step is a macro step of the
     model: the thread's step at the scheduling point followed by its steps at pcs that are not scheduling
-    points (the switch under the lock, the deferred Unlock, the go statement).
+    points (the switch under the lock, the deferred Unlock, the go statement). In Start the two chain steps are
+    scheduling points INSIDE the critical section: the thread is parked there holding statusLock.
 
     Kind 2 - real-time differential check of return values:
       input  (2 (prefix start_fails blocks) calls observed-codes)   output  1 if the vector is admissible else 0 *)
@@ -21,7 +22,7 @@ Local Open Scope N_scope.
 
 Definition yield_pc (p : pc) : bool :=
   match p with
-  | SCheck | SUnlock _ | SGo | TCheck _ _ | TUnlock _ _ _ => false
+  | SCheck | SUnlock _ | SUnlockFail | SGo | TCheck _ _ | TUnlock _ _ _ => false
   | _ => true
   end.
 
